@@ -8,11 +8,12 @@ import BumpverVerif.Driver.Common
 import BumpverVerif.Driver.Core
 import BumpverVerif.Driver.V2
 import BumpverVerif.Driver.Rw
+import BumpverVerif.Driver.Cli
 import BumpverVerif.Driver.Pep
 import BumpverVerif.Driver.Cal
 open Lean BV BV.Drv
 
-def handlers : List Handler := [handleCore, handleV2, handleRw, handlePep, handleCal]
+def handlers : List Handler := [handleCore, handleV2, handleRw, handleCli, handlePep, handleCal]
 
 def handle (j : Json) : Except String Json := do
   let op ← getStr j "op"
